@@ -165,6 +165,24 @@ pub fn exec_join(case: &JoinCase, out: &mut CaseOut) -> Result<(), Fail> {
         } else {
             first_view = Some(v.clone());
         }
+        // "final until the member is forgotten": the forget-timer of an identity that is NOT the one on
+        // record (a superseded or never-recorded identity of the address) must not forget anything
+        for u in &case.updates {
+            let id = Id::new(u.addr, u.gen);
+            let on_record = inst.foca.iter_membership_state().any(|m| *m.id() == id);
+            if !on_record && id != own {
+                let (res, evs, _, _) = inst.raw_call(&Call::Timer(foca::Timer::RemoveDown(id)));
+                ensure!(res.is_ok() && evs.is_empty(), "C01:stale-forget-timer-effect", "RemoveDown({id}) for an identity not on record returned {:?} / {:?}", res, evs);
+                let v2 = view_of(&inst, &[SENDER.addr]);
+                ensure!(
+                    v2 == expect,
+                    "C01:stale-forget-timer-forgets-successor",
+                    "the forget-timer of {id}, which is not the identity on record, changed the view from {:?} to {:?}",
+                    expect,
+                    v2
+                );
+            }
+        }
         // idempotence: re-applying the instance's own full state changes nothing
         let state: Vec<Member<Id>> = inst.foca.iter_membership_state().cloned().collect();
         let before = inst.view();
